@@ -28,6 +28,14 @@ Definition copy_to_dest (k : kind) : bool :=
 Definition node_release_on_remove : bool :=
   existsb (λ '(k, s, _), kind_eqb k KNode && match s with SRemoveFromMap => true | _ => false end) release_sites.
 
+(** Round 3: every place that can put a key into an entity's keyvalue dictionary goes through Entity.__setitem__
+    (which registers a 'nodeid' value with the map's node_id manager and stores the ID it was given) or cannot
+    concern the 'nodeid' key.  [node_copy_registers]: the same for the sites on the constructor / copy() path. *)
+Definition keys_writes_registered : bool :=
+  forallb (λ '(_, _, _, ok), ok) keys_write_sites && node_setitem_registers.
+Definition node_copy_registers : bool :=
+  forallb (λ '(_, _, c, ok), match c with KwCtor => ok | _ => true end) keys_write_sites.
+
 (** The allocator scan always terminates (pigeonhole on the used set). *)
 Theorem c08_get_id_total : ∀ d s, is_Some (get_id d s).
 Proof. exact get_id_total. Qed.
@@ -133,13 +141,23 @@ Proof. exact parse_colliding_ids. Qed.
 (** Nav-node IDs ('nodeid' keyvalue): when remove_ent does not release the ID of an entity that keeps the key,
     the node IDs held by existing entities are pairwise distinct and positive after every history of
     construction / parse with any value, key assignment, key deletion, copy, removal, re-adding and destruction
-    — for either shape of add_ent (re-allocating or not) and of the destructor (releasing or not). *)
+    — for either shape of add_ent (re-allocating or not) and of the destructor (releasing or not) — provided
+    (round 3) the keyvalues of a copy enter the new entity through __setitem__. *)
 Theorem c08_node_ids_unique : ∀ es, node_release_on_remove = false →
-  let w := nrun node_realloc_on_add node_release_on_remove node_release_in_del es in
+  node_copy_registers = true →
+  let w := nrun node_realloc_on_add node_release_on_remove node_release_in_del node_copy_registers es in
   NoDup (nids (nents w)) ∧ (∀ i, i ∈ nids (nents w) → 0 < i).
-Proof. intros es ->. exact (node_ids_nodup_pos _ _ es). Qed.
+Proof. intros es -> ->. exact (node_ids_nodup_pos _ _ es). Qed.
 (** The pinned tree's shape (remove_ent releases) is refuted, with and without the re-allocation in add_ent. *)
 Theorem c08_node_release_on_remove_refuted :
-  has_dup (nmap_ids (nents (nrun false true false node_release_on_remove_history))) = true ∧
-  has_dup (nmap_ids (nents (nrun true true false [NCreate (Some 0); NRemove 0; NCreate (Some (-1)); NCreate (Some (-1)); NReAdd 0; NCreate (Some (-1))]))) = true.
+  has_dup (nmap_ids (nents (nrun false true false true node_release_on_remove_history))) = true ∧
+  has_dup (nmap_ids (nents (nrun true true false true [NCreate (Some 0); NRemove 0; NCreate (Some (-1)); NCreate (Some (-1)); NReAdd 0; NCreate (Some (-1))]))) = true.
 Proof. exact node_release_on_remove_refuted. Qed.
+(** Round 3: the second hypothesis is necessary.  A copy that takes the key dictionary of its source over without
+    __setitem__ shares the node ID of its source; and once such a copy is dropped its destructor releases the ID
+    the source still holds, so a later node receives it again. *)
+Theorem c08_node_copy_unregistered_refuted :
+  nids (nents (nrun false false true false [NCreate (Some 1); NCopy 0])) = [1; 1] ∧
+  nids (nents (nrun false false true false
+                 [NCreate (Some (-1)); NCopy 0; NRemove 1; NGc 1; NCreate (Some (-1))])) = [1; 1].
+Proof. exact node_copy_unregistered_refuted. Qed.
